@@ -155,9 +155,12 @@ def post_pt(ip, ctx, out):
         return
     rec = ip.ghost.get('first_tensors') or []
     mpo, mps = pt_specs(ip, ctx['nsq'], c01.InflF(0), ctx['d'])
-    ok = len(rec) == 2
-    ip.prove('deg/scatter[PT-TEMPO first MPO tensor]', grid_eq(ip, rec[0], mpo) if ok else z3.BoolVal(False), {'captured': repr(rec)})
-    ip.prove('deg/scatter[PT-TEMPO first MPS tensor]', grid_eq(ip, rec[1], mps) if ok else z3.BoolVal(False), {'captured': repr(rec)})
+    # (the two arrays are told apart by their rank, not by the order in which the code builds them)
+    got_mpo = [g for g in rec if isinstance(g, GridArr) and g.rank == 3]
+    got_mps = [g for g in rec if isinstance(g, GridArr) and g.rank == 2]
+    ok = len(rec) == 2 and len(got_mpo) == 1 and len(got_mps) == 1
+    ip.prove('deg/scatter[PT-TEMPO first MPO tensor]', grid_eq(ip, got_mpo[0], mpo) if ok else z3.BoolVal(False), {'captured': repr(rec)})
+    ip.prove('deg/scatter[PT-TEMPO first MPS tensor]', grid_eq(ip, got_mps[0], mps) if ok else z3.BoolVal(False), {'captured': repr(rec)})
 
 
 def targets(prop=PROP, replay=None):
